@@ -43,6 +43,9 @@ pub enum Op {
     /// edit the file of key k in disk layer `layer`
     Corrupt { k: usize, layer: usize, how: u8 },
     Delete { k: usize, layer: usize },
+    /// drop the cache and build a new one with the same configuration on the same directories: the memory
+    /// layers start empty, the disk layers keep what they held
+    Reopen,
 }
 
 #[derive(Clone, Debug, Serialize, Deserialize)]
@@ -230,7 +233,7 @@ impl Scenario for Layers {
         "exploration"
     }
     fn rule(&self) -> &'static str {
-        "Seeded histories (2-25 ops) over put/put_with_ttl/put_to_layer/get/get_from_layer/promote/remove/clear/batch_get/batch_put/put_with_validation/get_with_validation/contains/size/advance on the real MultiLayerCacheImpl with 2-3 layers ([memory(max 1-3 entries), memory|disk, disk?]), each promotion strategy, Md5ValidationHooks on or off, interleaved with corruption or deletion of the disk layers' files; the same key is hit repeatedly (re-get of a key living only in a lower layer is favoured). Oracle: per key the latest put value and what each layer may hold; a get returns the latest value if a layer certainly holds it, nothing otherwise, never an older one; nothing from any layer after remove/clear; validated reads return only bytes hashing to the key and drop detected corruption from all layers; every call returns (virtual-time and real-time watchdogs). Non-trivial = >= 2 state-changing ops; distinct = hash of (config, ops, observed results)."
+        "Seeded histories (2-25 ops) over put/put_with_ttl/put_to_layer/get/get_from_layer/promote/remove/clear/batch_get/batch_put/put_with_validation/get_with_validation/contains/size/advance on the real MultiLayerCacheImpl with 2-3 layers ([memory(max 1-3 entries), memory|disk, disk?]), each promotion strategy, Md5ValidationHooks on or off, interleaved with corruption or deletion of the disk layers' files, and in one run in six (with a disk layer) ONE reopen (drop the cache, build it again on the same directories: memory layers empty, disk layers as they were); the same key is hit repeatedly (re-get of a key living only in a lower layer is favoured). Oracle: per key the latest put value and what each layer may hold; a get returns the latest value if a layer certainly holds it, nothing otherwise, never an older one; nothing from any layer after remove/clear; validated reads return only bytes hashing to the key and drop detected corruption from all layers; every call returns (virtual-time and real-time watchdogs). Non-trivial = >= 2 state-changing ops; distinct = hash of (config, ops, observed results)."
     }
     fn assumptions(&self) -> Vec<&'static str> {
         vec![
@@ -336,6 +339,12 @@ impl Scenario for Layers {
                 }
             }
         }
+        // one run in six (with a disk layer) reopens the cache once somewhere in the history; drawn last so
+        // that the rest of the case does not depend on it
+        if !disk_layers.is_empty() && rng.chance(1, 6) {
+            let at = rng.range(1, ops.len() as u64) as usize;
+            ops.insert(at.min(ops.len()), Op::Reopen);
+        }
         Case { layers, strategy, hooks, nkeys, ops }
     }
 
@@ -418,7 +427,7 @@ fn val(i: usize, k: usize, len: usize, sub: usize) -> Vec<u8> {
 }
 
 async fn run(case: &Case, ctx: &mut Ctx) -> Option<Violation> {
-    let (ml, mut m, dirs) = match build(case, &ctx.root) {
+    let (mut ml, mut m, dirs) = match build(case, &ctx.root) {
         Ok(x) => x,
         Err(e) => return Some(Violation::new("C12.construct", "construct_failed", "C12/layers/construct_failed", format!("valid configuration rejected: {e}"))),
     };
@@ -863,6 +872,28 @@ async fn run(case: &Case, ctx: &mut Ctx) -> Option<Violation> {
                         viol!("C12.contains", "answer_after_remove", ",via=contains", format!("op #{i} contains(k{k}) = true although no layer can hold the key (removed, cleared, expired or never put)"));
                     }
                 }
+            }
+            Op::Reopen => {
+                drop(ml);
+                for _ in 0..3 {
+                    tokio::task::yield_now().await;
+                }
+                ml = match build(case, &ctx.root) {
+                    Ok((x, _, _)) => x,
+                    Err(e) => viol!("C12.construct", "construct_failed", ",at=reopen", format!("op #{i}: building the cache again on the same directories failed: {e}")),
+                };
+                for _ in 0..3 {
+                    tokio::task::yield_now().await;
+                }
+                for km in m.keys.iter_mut() {
+                    for (l, h) in km.held.iter_mut().enumerate() {
+                        if m.mem_max[l].is_some() {
+                            *h = None;
+                        }
+                    }
+                }
+                ctx.count("reopens");
+                ctx.event(|| json!({"k":"op","op":"reopen"}));
             }
             Op::Size => {
                 let r = call!(i, "size", ml.size());
